@@ -241,6 +241,52 @@ func suiteFilter(h *H) {
 		}
 		run(rules, tree)
 	}
+	// (d) long rule lists (what a generated --exclude-from gives): mostly rules for names that do not occur,
+	// a few live ones in between — including the same name in its directory-only and plain forms — at every
+	// scale from a handful to several hundred rules, because the rule "the first match decides" is about the
+	// whole list whatever its length
+	for i := 0; i < h.n(60, 1200); i++ {
+		total := []int{6, 15, 31, 32, 33, 40, 64, 65, 100, 129, 257, 600}[h.rng.Intn(12)]
+		tree := []tEnt{}
+		for _, n := range names {
+			switch h.rng.Intn(4) {
+			case 0:
+				tree = append(tree, tEnt{n, 'f'})
+			case 1:
+				tree = append(tree, tEnt{n, 'd'}, tEnt{n + "/" + names[h.rng.Intn(len(names))], 'f'}, tEnt{n + "/sub", 'd'}, tEnt{n + "/sub/" + names[h.rng.Intn(len(names))], "fd"[h.rng.Intn(2)]})
+			case 2:
+				tree = append(tree, tEnt{n, 'l'})
+			}
+		}
+		live := map[int]string{}
+		slashFill := h.rng.Intn(2) == 0 // rules matched against the whole name among the others: every other list
+		for k := 2 + h.rng.Intn(6); k > 0; k-- {
+			n := names[h.rng.Intn(len(names))]
+			r := []string{"- " + n, "+ " + n, "- " + n + "/", "+ " + n + "/", n, "+ sub", "- sub/" + n}[h.rng.Intn(map[bool]int{true: 7, false: 6}[slashFill])]
+			live[h.rng.Intn(total)] = r
+			if h.rng.Intn(2) == 0 { // the other form of the same name somewhere later
+				o := "- " + n
+				if !strings.HasSuffix(r, "/") {
+					o = "+ " + n + "/"
+				}
+				live[h.rng.Intn(total)] = o
+			}
+		}
+		var rules []string
+		for k := 0; k < total; k++ {
+			if r, ok := live[k]; ok {
+				rules = append(rules, r)
+				continue
+			}
+			f := fmt.Sprintf("zz%d", h.rng.Intn(2*total))
+			if slashFill && h.rng.Intn(4) == 0 {
+				rules = append(rules, "- x/"+f)
+				continue
+			}
+			rules = append(rules, []string{"- " + f, "+ " + f, "- " + f + "/"}[h.rng.Intn(3)])
+		}
+		run(rules, tree)
+	}
 }
 
 // runD18: rsync semantics for the three extended syntaxes; the implementation is expected to either
